@@ -58,3 +58,25 @@ M("c01.scenario-cleanup-error-not-failed", ["C01"], MOD, "            self.set_s
   "            self.set_status(Status.error)\n\n        # -- CAPTURED-OUTPUT:")
 M("c01.pending-step-keeps-going", ["C01", "C02"], MOD, "                self.status = Status.pending\n                if dry_run_mode:",
   "                self.status = Status.pending_warn\n                if dry_run_mode:")
+
+# ---- C02 -------------------------------------------------------------------
+M("c02.own-steps-before-background", "C02", MOD, "return itertools.chain(self.background_steps, self.steps)",
+  "return itertools.chain(self.steps, self.background_steps)")
+M("c02.background-drops-inherited", "C02", MOD, "return itertools.chain(self.inherited_steps, self.steps)\n        return iter(self.steps)",
+  "return iter(self.steps)\n        return iter(self.steps)")
+M("c02.assertion-mapped-to-error", "C02", MOD, "            except AssertionError as e:\n                self.status = Status.failed",
+  "            except AssertionError as e:\n                self.status = Status.error")
+M("c02.keep-running-after-failure", "C02", MOD, "                        run_steps = (self.continue_after_failed_step and\n                                     step.has_failed())",
+  "                        run_steps = step.status is Status.failed")
+M("c02.dry-run-calls-steps", "C02", MOD, "        run_steps = run_scenario and not runner.config.dry_run\n        dry_run_scenario",
+  "        run_steps = run_scenario\n        dry_run_scenario")
+M("c02.wip-inverted", "C02", MOD, "                elif wip_mode:\n                    self.status = Status.pending_warn",
+  "                elif not wip_mode:\n                    self.status = Status.pending_warn")
+M("c02.step-reset-dropped", "C02", MOD, "        self.reset()\n        dry_run_mode = runner.config.dry_run",
+  "        self.hook_failed = False\n        dry_run_mode = runner.config.dry_run")
+M("c02.remaining-undefined-not-detected", "C02", MOD, "                    if not found_step_match:\n                        step.status = Status.undefined",
+  "                    if not found_step_match and dry_run_scenario:\n                        step.status = Status.undefined")
+M("c02.skip-step-counts-as-passed", "C02", MOD, "                if self.status == Status.untested:\n                    # -- NOTE: Executed step may have skipped scenario and itself.",
+  "                if self.status in (Status.untested, Status.skipped):\n                    # -- NOTE: Executed step may have skipped scenario and itself.")
+M("c02.wip-from-own-tags-only", "C02", MOD, 'if current_scenario and "wip" in current_scenario.effective_tags:',
+  'if current_scenario and "wip" in current_scenario.tags:')
